@@ -118,6 +118,9 @@ def ssb_texts(tier: str) -> list:
         for r1 in small:
             if _ssb_valid((r0, r1)):
                 out.append(("ssb2", (r0, r1)))
+                # routine ids out of order / used twice (the second routine must not silently replace the first)
+                out.append(("ssb2:ids=1,0", (r0, r1)))
+                out.append(("ssb2:ids=0,0", (r0, r1)))
     for probe in SSB_STMTS_PROBE:
         for r in seqs(2, ("op(1);", "@x;", "Return();")):
             for pos in range(len(r) + 1):
@@ -127,11 +130,20 @@ def ssb_texts(tier: str) -> list:
     return out
 
 
-def ssb_text(routines: tuple, variant: int = 0) -> str:
+def family_ids(family: str, n: int) -> list:
+    if ":ids=" in family:
+        ids = [int(x) for x in family.split(":ids=")[1].split(",")]
+        return (ids + list(range(len(ids), n)))[:n]
+    return list(range(n))
+
+
+def ssb_text(routines: tuple, variant: int = 0, ids: list | None = None) -> str:
     heads = ("def {i} {{", "def {i} for actor ACTOR_{i} {{", "def {i} for_object({i}) {{", "def {i} for performer {i} {{")
     lines = [SSB_HEADER.rstrip("\n")]
     for i, r in enumerate(routines):
-        if variant % 5 == 4:
+        if ids is not None:
+            i = ids[i]
+        if variant % 5 == 4 and ids is None:
             lines.append(f"coro CORO_{i} {{")
         else:
             lines.append(heads[(variant + i) % len(heads)].format(i=i))
@@ -153,7 +165,7 @@ def ssb_shrink(family: str, routines: tuple, code: str) -> tuple:
     def fails(rs: tuple) -> bool:
         if not _ssb_valid(rs):
             return False
-        _, problems, _ = analyse_text(ssb_text(rs))
+        _, problems, _ = analyse_text(ssb_text(rs, 0, family_ids(family, len(rs)) if ":ids=" in family else None))
         return any(c == code for c, _ in problems)
 
     cur = routines
@@ -198,7 +210,7 @@ def _worker_impl(args: tuple) -> dict:
             if ("ssb", tier) not in _CACHE:
                 _CACHE[("ssb", tier)] = ssb_texts(tier)
             family, routines = _CACHE[("ssb", tier)][idx]
-            text = ssb_text(routines, idx)
+            text = ssb_text(routines, idx, family_ids(family, len(routines)) if ":ids=" in family else None)
             prog = None
             nontrivial = "@" in text.replace(SSB_HEADER, "")
         else:
@@ -224,7 +236,7 @@ def _worker_impl(args: tuple) -> dict:
                 sig = f"C03:explorerscript:{code}:{C01.shape(small)}"
             else:
                 small_r = ssb_shrink(family, routines, code)
-                stext = ssb_text(small_r)
+                stext = ssb_text(small_r, 0, family_ids(family, len(small_r)) if ":ids=" in family else None)
                 if family == "ssb-marker-not-last":
                     # the listener forgets a jump marker that is followed by another argument (exitPos_argument resets
                     # _turn_next_op_into_label_jump_for): one class, whatever the opcode or the position of the label
@@ -257,7 +269,7 @@ def run_t3(ctx: Ctx) -> PropResult:
     res.rule = (
         "inputs = every program of C01's space [" + C01.describe_space(ctx.tier) + f"] + {C01.RANDOM_N[ctx.tier]} seeded "
         f"random programs, and {n_ssb} SsbScript texts (all sequences of <= 4 (quick) / 5 statements over {list(SSB_STMTS)} "
-        "in one routine, all pairs of routines with <= 2 / 3 statements, plus probes with the jump marker not in last "
+        "in one routine, all pairs of routines with <= 2 / 3 statements - each pair also with the routine ids in reverse order and with the same id twice -, plus probes with the jump marker not in last "
         "position); the four clauses are evaluated on every compilation result. distinct = distinct texts; "
         "non-trivial = contains a control construct / a jump marker."
     )
